@@ -209,7 +209,8 @@ def rtsafe_reference(fam, th, x0, lo, hi, x_tol, r_tol, max_iters):
     """Numerical Recipes rtsafe, started from the clipped guess instead of the bracket midpoint and with the
     additional residual criterion |f| < r_tol (both as documented for find_root).  Returns a dict:
       status: 'nobracket' | 'endpoint' | 'converged' | 'exhausted'
-      x, iters, and hit_singular=True when an iterate had f == 0 and f' == 0 (0/0 Newton step) or a non-finite f'.
+      x, iters, hit_singular=True when an iterate had f == 0 and f' == 0 (0/0 Newton step), hit_nonfinite_slope,
+      exit ('x_tol' | 'r_tol' | 'stagnation'), last_step ('newton' | 'bisection'), bisections, newtons.
     """
     def fd(x):
         return f_np(fam, x, th), fx_np(fam, x, th)
@@ -217,11 +218,12 @@ def rtsafe_reference(fam, th, x0, lo, hi, x_tol, r_tol, max_iters):
     x1, x2 = float(lo), float(hi)
     fl, _ = fd(x1)
     fh, _ = fd(x2)
-    out = {"status": None, "x": math.nan, "iters": 0, "hit_singular": False, "bisections": 0, "newtons": 0}
+    out = {"status": None, "x": math.nan, "iters": 0, "hit_singular": False, "hit_nonfinite_slope": False,
+           "bisections": 0, "newtons": 0, "exit": None, "last_step": None, "singular_at_iter": None}
     if fl == 0.0 or fh == 0.0:
         out.update(status="endpoint", x=(x2 if fh == 0.0 else x1))
         return out
-    if not (fl * fh < 0.0):
+    if not ((fl < 0.0 and fh > 0.0) or (fl > 0.0 and fh < 0.0)):   # by signs: products of tiny values underflow
         out.update(status="nobracket")
         return out
     if fl < 0.0:
@@ -233,17 +235,22 @@ def rtsafe_reference(fam, th, x0, lo, hi, x_tol, r_tol, max_iters):
     dx = dxold
     f, df = fd(rts)
     for j in range(int(max_iters)):
-        if (f == 0.0 and df == 0.0) or not math.isfinite(df):
+        if f == 0.0 and df == 0.0 and not out["hit_singular"]:
             out["hit_singular"] = True
-        out_of_range = ((rts - xh) * df - f) * ((rts - xl) * df - f) > 0.0
+            out["singular_at_iter"] = j
+        if not math.isfinite(df):
+            out["hit_nonfinite_slope"] = True
+        ta, tb = (rts - xh) * df - f, (rts - xl) * df - f
+        out_of_range = (ta > 0.0 and tb > 0.0) or (ta < 0.0 and tb < 0.0)
         slow = abs(2.0 * f) > abs(dxold * df)
         if out_of_range or slow:
             dxold = dx
             dx = 0.5 * (xh - xl)
             rts = xl + dx
             out["bisections"] += 1
+            out["last_step"] = "bisection"
             if xl == rts:
-                out.update(status="converged", x=rts, iters=j + 1)
+                out.update(status="converged", x=rts, iters=j + 1, exit="stagnation")
                 return out
         else:
             dxold = dx
@@ -251,12 +258,13 @@ def rtsafe_reference(fam, th, x0, lo, hi, x_tol, r_tol, max_iters):
             temp = rts
             rts = rts - dx
             out["newtons"] += 1
+            out["last_step"] = "newton"
             if temp == rts:
-                out.update(status="converged", x=rts, iters=j + 1)
+                out.update(status="converged", x=rts, iters=j + 1, exit="stagnation")
                 return out
         f, df = fd(rts)
         if abs(dx) < x_tol or abs(f) < r_tol:
-            out.update(status="converged", x=rts, iters=j + 1)
+            out.update(status="converged", x=rts, iters=j + 1, exit=("x_tol" if abs(dx) < x_tol else "r_tol"))
             return out
         if f < 0.0:
             xl = rts
@@ -273,7 +281,17 @@ def budget_class(fam, th, x0, lo, hi, x_tol, r_tol, max_iters):
       'between'              neither                                        -> neutral
     """
     r2 = rtsafe_reference(fam, th, x0, lo, hi, x_tol, r_tol, 2 * int(max_iters))
-    detail = {"ref_iters_2x": r2["iters"], "ref_status_2x": r2["status"], "hit_singular": r2["hit_singular"]}
+    detail = {"ref_iters_2x": r2["iters"], "ref_status_2x": r2["status"],
+              "hit_singular": bool(r2["hit_singular"] and r2["singular_at_iter"] < int(max_iters))}
+    if float(lo) > float(hi):
+        # bracket given as [upper, lower]: where the search starts is not defined by the documentation (jnp.clip with
+        # reversed bounds returns bracket[1]); the reference is run from that start too and the more lenient label wins
+        rb = rtsafe_reference(fam, th, hi, lo, hi, x_tol, r_tol, 2 * int(max_iters))
+        detail.update(ref_iters_2x_from_end=rb["iters"], ref_status_2x_from_end=rb["status"])
+        # the start the implementation effectively uses; only a 0/0 within the implementation's own budget counts
+        detail["hit_singular"] = bool(rb["hit_singular"] and rb["singular_at_iter"] < int(max_iters))
+        if rb["status"] == "exhausted" or rb["iters"] > r2["iters"]:
+            r2 = rb
     if r2["status"] == "exhausted":
         return "ref_fails_double", detail
     if r2["status"] == "converged" and r2["iters"] <= int(max_iters) // 2:
